@@ -88,6 +88,7 @@ class Recorder:
         self.orig_cut, self.orig_split, self.orig_trunc = U._determine_cutoff_index, U.split_matrix, U.truncate_impl
         self.cut_log = []      # (d list, max_error, result)
         self.split_log = []    # dict per split inside truncate_impl
+        self.trunc_args = []   # (precision, max_bond_dim) of every truncate_impl call
         self.cur_factors = None
         self.cur_cfg = None
         rec = self
@@ -130,6 +131,7 @@ class Recorder:
             rec.cur_factors = factors
             rec.cur_i = len(factors) - 1
             rec.pre_trunc = {"L": [is_left_iso(f) for f in factors[:-1]]}
+            rec.trunc_args.append((float(precision), int(max_bond_dim)))
             try:
                 return rec.orig_trunc(factors, precision=precision, max_bond_dim=max_bond_dim)
             finally:
@@ -221,12 +223,17 @@ def run_history(ctx, rng, tgen, rec, idx):
     nops = rng.randint(1, 8)
     names = ["orth", "orth", "trunc", "trunc", "add", "scale", "apply", "expect_batch", "norm", "sample", "entropy",
              "corr", "apply_to", "inner"]
-    bad = None
+    bad = {}
 
     def fail(what, key, extra=None):
-        nonlocal bad
-        if bad is None:
-            bad = (what, key, extra or {})
+        bad.setdefault(key, (what, extra or {}))
+
+    def cfg_of(x):
+        return (float(x.precision), int(x.max_bond_dim), tuple(x.eigenstates))
+
+    cfg = cfg_of(m)   # the configuration every result of this history must carry (rule: left operand's)
+    if cfg != (float(precision), int(max_bond), tuple(eig(d))):
+        fail(f"constructor did not store precision/max_bond_dim/eigenstates: {cfg}", "precision-not-propagated")
 
     for step in range(nops):
         k = rng.choice(names)
@@ -234,6 +241,7 @@ def run_history(ctx, rng, tgen, rec, idx):
         psi_before = dense_state(m.factors)
         nrm_before = float(psi_before.norm())
         rec.split_log.clear()
+        rec.trunc_args.clear()
         state_changes = False
         if k == "orth":
             o["c"] = rng.randrange(n)
@@ -243,13 +251,25 @@ def run_history(ctx, rng, tgen, rec, idx):
         elif k == "add":
             ofs = rand_mps(rng, n, d, rng.choice([1, 2, 4, 8]), tgen)
             o["other"] = [(f.shape[0], f.shape[2]) for f in ofs]
-            other = MPS(ofs, num_gpus_to_use=None, eigenstates=eig(d))
+            if rng.random() < 0.6 and nrm_before > 0:   # a component of relative size 1e-3 .. 1e-8
+                o["relative_size"] = 10 ** -rng.uniform(3, 8)
+                ofs[rng.randrange(n)] *= o["relative_size"] * nrm_before / float(dense_state(ofs).norm())
+            # the right operand has its own configuration; rule of /repo: the sum carries the LEFT operand's
+            o["other_cfg"] = [10 ** rng.uniform(-12, -2), rng.randint(1, 64)]
+            other = MPS(ofs, precision=o["other_cfg"][0], max_bond_dim=o["other_cfg"][1], num_gpus_to_use=None,
+                        eigenstates=eig(d))
             psi_before = psi_before + dense_state(ofs)
             m = m + other
+            if cfg_of(other) != (o["other_cfg"][0], o["other_cfg"][1], tuple(eig(d))):
+                fail("__add__ changed the configuration of its right operand", "precision-not-propagated")
         elif k == "scale":
             c = complex(rng.uniform(-2, 2), rng.uniform(-2, 2))
             psi_before = c * psi_before
-            m = c * m
+            if rng.random() < 0.5:
+                m = c * m
+            else:
+                m *= c
+                o["how"] = "imul"
         elif k == "apply":
             o["q"] = rng.randrange(n)
             g = torch.randn(d, d, dtype=torch.complex128, generator=tgen)
@@ -285,6 +305,18 @@ def run_history(ctx, rng, tgen, rec, idx):
         truncating = k in ("trunc", "add", "apply_to")
         if truncating:
             o["ks"] = [e["kept"] for e in rec.split_log]
+        # ---- configuration oracle: results carry the operand's precision / max_bond_dim / eigenstates ----
+        if k == "apply_to":
+            if cfg_of(m) != cfg:   # /repo builds the result with the defaults: recorded, reported to the lead
+                ctx.extra["apply_to_results_with_default_config"] = ctx.extra.get("apply_to_results_with_default_config", 0) + 1
+        elif cfg_of(m) != cfg:
+            fail(f"after {k}: result carries (precision, max_bond_dim, eigenstates) = {cfg_of(m)} but the operand had {cfg}",
+                 "precision-not-propagated", {"step": step})
+        # ---- every truncation triggered by the operation must use the operand's precision and cap (exact) ----
+        wrong_args = [a for a in rec.trunc_args if a != (cfg[0], cfg[1])]
+        if wrong_args:
+            fail(f"{k}: truncate_impl ran with (precision, max_bond_dim) = {wrong_args[0]} but the state's are {cfg[:2]}",
+                 "truncation-ignores-state-precision", {"step": step})
         ops.append(o)
         ob = observe_real(m)
         observations.append(ob)
@@ -313,9 +345,24 @@ def run_history(ctx, rng, tgen, rec, idx):
                     if e["discarded"] > tol:
                         fail(f"{k}: dense discarded weight {e['discarded']:.3e} at bond {e['site']} > precision^2 "
                              f"{precision ** 2:.3e} although the cap does not bind", "discarded-weight", {"step": step})
+                    # When the code demonstrably truncated with a LOOSER threshold than the state's precision, the dense
+                    # weight is compared with the operand's precision^2 up to the MEASUREMENT error of the SVD reference
+                    # only (singular values are accurate to eps*sigma_max): no false alarm is possible on code that
+                    # passes the exact argument check above.
+                    if wrong_args and e["max_error"] is not None and e["max_error"] > precision:
+                        w, sm2 = e["discarded"], e["svmax2"]
+                        meas = 1e6 * (2 * MACH * math.sqrt(sm2 * e["len"] * w) + e["len"] * MACH ** 2 * sm2)
+                        if w > precision ** 2 * (1 + 1e-6) + meas:
+                            fail(f"{k}: dense discarded weight {w:.3e} at bond {e['site']} > precision^2 = {precision ** 2:.3e} "
+                                 f"(truncated with {e['max_error']:.1e} instead of the state's {precision:.1e}; kept {e['kept']} "
+                                 f"of {e['len']}, cap {e['max_rank']} not binding)", "discarded-weight-exceeds-precision",
+                                 {"step": step})
             if not cap_binds:
                 err = float((psi_after - psi_before).norm())
-                if err > math.sqrt(n - 1) * precision * (1 + 1e-6) + 1e-9 * scale_ref:
+                # per bond the code may discard precision^2 plus the rounding level of eigh on the Gram matrix
+                # (eps * sigma_max^2, same 1e6 safety factor as the per-bond check above)
+                nb2 = float(psi_before.norm()) ** 2
+                if err > math.sqrt((n - 1) * (precision ** 2 * (1 + 1e-6) + 1e6 * MACH * nb2)) + 1e-9 * scale_ref:
                     fail(f"{k}: state moved by {err:.3e} > sqrt(N-1)*precision", "truncation-error", {"step": step})
         elif not state_changes:
             err = float((psi_after - psi_before).norm())
@@ -324,14 +371,49 @@ def run_history(ctx, rng, tgen, rec, idx):
         if k == "apply_to":
             break
     case["ops"] = ops
-    if bad is not None:
-        what, key, extra = bad
-        ctx.violation(what, {"case": case, "finding_key": key, "torch_seed": None, **extra})
+    for key, (what, extra) in bad.items():
+        ctx.violation(what, {"case": case, "finding_key": key, **extra})
     init = "[" + ";".join(ft(obs0["bonds"][i], obs0["bonds"][i + 1], obs0["L"][i], obs0["R"][i]) for i in range(n)) + "]"
     oc0 = "None" if obs0["oc"] is None else f"(Some {obs0['oc']})"
     expr = (f"map observe_res (f_run {d} {max_bond}%Z [" + ";".join(op_expr(o) for o in ops) + "] "
             f"(MkMps {init} {oc0}))")
     return case, expr, observations
+
+
+def add_witness(ctx, rec, w):
+    """corpus witness: a + b where b is a tiny component; the sum must be cut with the LEFT operand's precision"""
+    import torch
+    from emu_mps.mps import MPS
+
+    def mk(spec):
+        fs = [torch.tensor(t, dtype=torch.complex128) for t in spec["factors"]]
+        return MPS(fs, precision=spec["precision"], max_bond_dim=spec["max_bond_dim"], num_gpus_to_use=None,
+                   eigenstates=tuple(w["eigenstates"]))
+
+    a, b = mk(w["a"]), mk(w["b"])
+    p, cap = float(w["a"]["precision"]), int(w["a"]["max_bond_dim"])
+    rec.split_log.clear()
+    rec.trunc_args.clear()
+    r = a + b
+    ctx.count_case({"kind": "corpus:add_witness", "name": w.get("name")}, True)
+    got = (float(r.precision), int(r.max_bond_dim), tuple(r.eigenstates))
+    if got != (p, cap, tuple(w["eigenstates"])):
+        ctx.violation(f"{w.get('name')}: a + b carries (precision, max_bond_dim, eigenstates) = {got}, the left operand had "
+                      f"{(p, cap, tuple(w['eigenstates']))}", {"case": w, "finding_key": "precision-not-propagated"})
+    wrong = [x for x in rec.trunc_args if x != (p, cap)]
+    if wrong:
+        ctx.violation(f"{w.get('name')}: the sum was truncated with (precision, max_bond_dim) = {wrong[0]} instead of {(p, cap)}",
+                      {"case": w, "finding_key": "truncation-ignores-state-precision"})
+    for e in rec.split_log:
+        if "discarded" not in e or e["len"] - cap > e["cut"]:
+            continue
+        wgt, sm2 = e["discarded"], e["svmax2"]
+        meas = 1e6 * (2 * MACH * math.sqrt(sm2 * e["len"] * wgt) + e["len"] * MACH ** 2 * sm2)
+        floor = meas if wrong else 1e6 * MACH * sm2
+        if wgt > p * p * (1 + 1e-6) + floor:
+            ctx.violation(f"{w.get('name')}: bond {e['site']}: dense discarded weight {wgt:.3e} > precision^2 = {p * p:.3e} "
+                          f"(kept {e['kept']} of {e['len']}, cap {cap} not binding)",
+                          {"case": w, "discarded": wgt, "finding_key": "discarded-weight-exceeds-precision"})
 
 
 def exact_mpo_mps(mpo_f, fs):
@@ -430,6 +512,9 @@ def run(ctx):
     rec = Recorder()
     hist_items = []
     try:
+        for w in corpus:
+            if w.get("kind") == "add_witness":
+                add_witness(ctx, rec, w)
         for i in range(ctx.n(150, 2500)):
             hist_items.append(run_history(ctx, rng, tgen, rec, i))
     finally:
@@ -533,8 +618,15 @@ def run(ctx):
         "QR / eigh / zip-up kernels are oracles: premises 'Q isometric', 'eigh eigenvectors orthonormal' are measured, not proved",
         "'no bond exceeds max_bond_dim' is read as: every truncating operation enforces it and re-centring never grows a bond "
         "(an MPS constructed with larger bonds keeps them until it is truncated)",
-        "dense discarded-weight check has an absolute floor of 1e6*eps_mach*sigma_max^2, so it is informative for precision >~ 1e-5",
-        "apply_to returns an MPS carrying the default precision/max_bond_dim; histories end at apply_to",
+        "dense discarded-weight and truncation-error checks have an absolute floor of 1e6*eps_mach*sigma_max^2 (eigh on the Gram "
+        "matrix resolves squared singular values only to eps*sigma_max^2: components of relative size < ~1e-7 are lost whatever "
+        "the precision), so they are informative for precision >~ 1e-5; below that the contract is enforced through the exact "
+        "oracle 'every truncation uses the state's precision and cap' plus the bit-exact cutoff tie and theorem",
+        "apply_to returns an MPS carrying the default precision/max_bond_dim (its truncation itself uses the operand's); this is "
+        "counted in coverage.apply_to_results_with_default_config and not treated as a violation; histories end at apply_to",
+        "configuration rule checked: every MPS returned by +, scalar*, *=, and every in-place operation carries the (left) "
+        "operand's precision / max_bond_dim / eigenstates, and every truncation it triggers uses exactly those values; "
+        "num_gpus_to_use is not stored on the object and is not checked",
     ]
 
 
@@ -547,6 +639,17 @@ def replay(ctx, path):
     rp = json.loads(open(path).read())
     print("replay:", rp.get("what"))
     print("case:", json.dumps(rp.get("case"), default=str)[:2000])
+    case = rp.get("case") or {}
+    if case.get("kind") == "add_witness":
+        import torch
+
+        torch.set_num_threads(1)
+        rec = Recorder()
+        try:
+            add_witness(ctx, rec, case)
+        finally:
+            rec.close()
+        return
     # histories are regenerated from the seeded stream (torch generator + ctx.rng): rerun the same tier
     run(ctx)
 
